@@ -407,4 +407,23 @@ theorem erase_prefix_gone (r : Reader) (m : KV) (p q : Key) (hq : p.isPrefixOf q
 example : ("a/".toList : Key).isPrefixOf "a/b/".toList = true := by decide
 
 
+/-- **unknown storage transformers**: a document naming a storage transformer that must be understood (the default) is
+rejected on open; transformers marked `must_understand: false` do not stand in the way -/
+theorem unknown_transformer_rejected (d : ArrayDoc) (gridRank : Nat) (m : MetaV3) (hm : m ∈ d.st) (hmu : m.mu = true) :
+    openOk d gridRank = false := by
+  have : transformersOk d = false := by
+    simp only [transformersOk, List.all_eq_false]
+    exact ⟨m, hm, by simp [hmu]⟩
+  simp [openOk, this]
+
+theorem skippable_transformers_open (d : ArrayDoc) (gridRank : Nat) (h : structOk d gridRank = true)
+    (hs : ∀ m ∈ d.st, m.mu = false) : openOk d gridRank = true := by
+  have : transformersOk d = true := by
+    simp only [transformersOk, List.all_eq_true]
+    intro m hm; simp [hs m hm]
+  simp [openOk, h, this]
+
+theorem openOk_structOk (d : ArrayDoc) (gridRank : Nat) (h : openOk d gridRank = true) : structOk d gridRank = true := by
+  simp only [openOk, Bool.and_eq_true] at h; exact h.1
+
 end Zarrs.C13
